@@ -90,11 +90,69 @@ def example_version(v):
     return s
 
 
-def run2(prog, key, a, b, overrides=None):
+def mk_version_structured(prog, name, nums, pre, build):
+    """as mk_version, with the identifier lists as real lists of `Identifier::Numeric(token)` (for code that walks
+    or slices the lists instead of comparing them whole)"""
+    from .interp import ListV
+    names = vfields(prog)
+    NUM = prog.variant_index("Identifier", "Numeric")
+    f = [None] * len(names)
+    for fn in FIELDS:
+        f[names.index(fn)] = Tok("I", "%s.%s" % (name, fn), nums[fn], dom=fn)
+    for field, xs in (("pre_release", pre), ("build", build)):
+        f[names.index(field)] = ListV([Adt("Identifier", NUM, (Tok("I", "%s.%s%d" % (name, field, i), x, dom="ident"),))
+                                       for i, x in enumerate(xs)])
+    return Adt(VERSION, 0, f)
+
+
+# identifier-list pairs for the structured fallback: every weak order of up to three numeric identifiers per side,
+# lengths 0..3, so that common prefixes, strict prefixes and first differences at each position occur
+LISTS_S = [(), (0,), (1,), (0, 0), (0, 1), (1, 0), (0, 0, 0), (0, 0, 1), (0, 1, 0)]
+
+
+def two_version_worlds_structured():
+    per_field = [(0, 0), (0, 1), (1, 0)]
+    for ma in per_field:
+        for mi in per_field:
+            for pa in per_field:
+                for la in LISTS_S:
+                    for lb in LISTS_S:
+                        for (ba, bb) in (((), ()), ((), (0,))):
+                            a = ({"major": ma[0], "minor": mi[0], "patch": pa[0]}, la, ba)
+                            b = ({"major": ma[1], "minor": mi[1], "patch": pa[1]}, lb, bb)
+                            yield a, b
+
+
+def world_str_structured(a, b):
+    def rel(x, y):
+        return "<" if x < y else ("=" if x == y else ">")
+    parts = ["%s:a%sb" % (fn, rel(a[0][fn], b[0][fn])) for fn in FIELDS]
+    pa, pb = a[1], b[1]
+    n = 0
+    while n < len(pa) and n < len(pb) and pa[n] == pb[n]:
+        n += 1
+    if n == len(pa) and n == len(pb):
+        d = "equal lists"
+    elif n == len(pa):
+        d = "a is a strict prefix of b"
+    elif n == len(pb):
+        d = "b is a strict prefix of a"
+    else:
+        d = "first difference a%sb" % rel(pa[n], pb[n])
+    parts.append("pre:a=%s,b=%s,%s" % ("none" if not pa else "some", "none" if not pb else "some", d))
+    parts.append("build:%s" % ("same" if a[2] == b[2] else "differs"))
+    return " ".join(parts)
+
+
+def run2(prog, key, a, b, overrides=None, structured=False):
     """interpret `key(&a, &b)` on two abstract versions"""
-    it = Interp(prog, Policy(), overrides=overrides or {})
-    va = mk_version(prog, "a", a[0], a[1], a[2])
-    vb = mk_version(prog, "b", b[0], b[1], b[2])
+    pol = Policy()
+    mk = mk_version
+    if structured:
+        mk = mk_version_structured
+    it = Interp(prog, pol, overrides=overrides or {})
+    va = mk(prog, "a", a[0], a[1], a[2])
+    vb = mk(prog, "b", b[0], b[1], b[2])
     try:
         r = it.call_body(key, [Ptr(Cell(va)), Ptr(Cell(vb))])
         return "ok", r, it
